@@ -143,6 +143,38 @@ class Prov:
     _multi = None
     _choice = None
 
+    def _aug_value(self, fn, sc, nm, d, depth, stop):
+        """Value of `nm` after the augmented assignment d: <value before> op <increment>; inside a loop the
+        increment is REPEATed over the value that entered the loop.  Chains of augmented assignments are followed."""
+        key = (fn.qualname, nm, d.cnode.id, "aug")
+        if key in self._stack or depth > 40:
+            return {nm}
+        self._stack.add(key)
+        try:
+            vals = self.expand(fn, sc, d.node.value, d.cnode, depth + 1, stop)
+            op = type(d.node.op).__name__
+            sym = {"Add": "+", "Sub": "-", "Mult": "*", "BitOr": "|"}.get(op, op)
+            looped = self.A.cfg(fn, sc).in_loop(d.cnode)
+            pv = set()
+            for r in self.reaching(fn, sc, nm, d.cnode):
+                if r.cnode is d.cnode:
+                    continue            # its own loop-carried value: covered by REPEAT
+                if r.kind == "aug":
+                    if looped and self.A.cfg(fn, sc).in_loop(r.cnode):
+                        continue        # another accumulation step of the same loop
+                    pv |= self._aug_value(fn, sc, nm, r, depth + 1, stop)
+                elif r.kind == "param" or r.value is None:
+                    pv.add(nm)
+                else:
+                    pv |= {f"({x})" for x in self.expand(fn, sc, r.value, r.cnode, depth + 1, stop)}
+            out = set()
+            for p in pv or {nm}:
+                for v in vals:
+                    out.add(f"({p} {sym} REPEAT({v}))" if looped else f"({p} {sym} {v})")
+            return out
+        finally:
+            self._stack.discard(key)
+
     def _discover(self, fn, sc, expr, use_node, stop, multi, seen):
         """Names with several reaching definitions anywhere in the expansion of expr."""
         local = self.defs(fn, sc)
@@ -196,21 +228,7 @@ class Prov:
                 if d.kind == "param":
                     alts.add(nm)
                 elif d.kind == "aug":
-                    # loop-carried accumulation: <initial value> op REPEAT(<increment>)
-                    prevs = [r for r in self.reaching(fn, sc, nm, d.cnode) if r.kind != "aug"]
-                    vals = self.expand(fn, sc, d.node.value, d.cnode, depth + 1, stop)
-                    op = type(d.node.op).__name__
-                    sym = {"Add": "+", "Sub": "-", "Mult": "*", "BitOr": "|"}.get(op, op)
-                    pv = set()
-                    for r in prevs:
-                        if r.kind == "param" or r.value is None:
-                            pv.add(nm)
-                        else:
-                            pv |= {f"({x})" for x in self.expand(fn, sc, r.value, r.cnode, depth + 1, stop)}
-                    looped = self.A.cfg(fn, sc).in_loop(d.cnode)
-                    for p in pv or {nm}:
-                        for v in vals:
-                            alts.add(f"({p} {sym} REPEAT({v}))" if looped else f"({p} {sym} {v})")
+                    alts |= self._aug_value(fn, sc, nm, d, depth, stop)
                 elif d.kind == "except" or d.value is None:
                     alts.add(nm)
                 else:
@@ -307,8 +325,9 @@ def _substitute(expr, mapping):
     s = ast.unparse(e)
     for k, v in mapping.items():
         s = s.replace("\x00" + k + "\x00", v)
-    if ")[" in s or "][" in s:
-        # (a, b)[1] -> b : constant index into a display (tuple-unpacking of unrolled loops / inlined helpers)
+    if ")[" in s or "][" in s or "ELEM((" in s or "ELEM([" in s:
+        # (a, b)[1] -> b : constant index into a display (tuple-unpacking of unrolled loops / inlined helpers);
+        # ELEM(<comprehension>) -> its element expression
         from .decide import simplify_text
         s = simplify_text(s)
     return s
